@@ -134,13 +134,15 @@ pub struct ExecOut {
 
 static LOG_TRACE: std::sync::atomic::AtomicBool = std::sync::atomic::AtomicBool::new(false);
 static REUSE: std::sync::atomic::AtomicBool = std::sync::atomic::AtomicBool::new(false);
-static SHALLOW: std::sync::atomic::AtomicBool = std::sync::atomic::AtomicBool::new(false);
+/// behaviour of the payload's Clone impl: bit 0 = the copy does not get the stored handles,
+/// bit 1 = the impl releases every other program handle to the object being cloned
+static SHALLOW: std::sync::atomic::AtomicU32 = std::sync::atomic::AtomicU32::new(0);
 
 fn ctx_head(profile: &str, seed: u64, run: u64, exec_i: u64, layouts: &[u64], faults: &Faults) -> String {
     let l: Vec<String> = layouts.iter().map(|x| x.to_string()).collect();
     let lt = LOG_TRACE.load(Relaxed) as u8;
     let ru = REUSE.load(Relaxed) as u8;
-    let sc = SHALLOW.load(Relaxed) as u8;
+    let sc = SHALLOW.load(Relaxed);
     let build = if cfg!(debug_assertions) { "checked" } else if cfg!(feature = "std") { "relnd" } else { "relnd-nostd" };
     format!(
         "{{\"type\":\"violation\",\"profile\":\"{profile}\",\"seed\":{seed},\"run\":{run},\"exec\":{exec_i},\"build\":\"{build}\",\"log_trace\":{lt},\"addr_reuse\":{ru},\"shallow_clone\":{sc},\"layouts\":[{}],\"faults\":\"{}\",\"ops\":\"",
@@ -349,7 +351,7 @@ fn do_run(rc: &RunCfg<'_>, run: u64) {
         st(St::f_addr_reuse_runs, 1);
     }
     // payload: in half of the runs its Clone impl yields a copy without the stored handles
-    SHALLOW.store(Rng(mix(rc.seed, run, 11)).chance(1, 2), Relaxed);
+    SHALLOW.store(u32::from(Rng(mix(rc.seed, run, 11)).chance(1, 2)) | (u32::from(Rng(mix(rc.seed, run, 14)).chance(1, 4)) << 1), Relaxed);
     let trace = Rng(mix(rc.seed, run, 9)).chance(1, 8);
     LOG_TRACE.store(trace, Relaxed);
     set_log_level(trace);
@@ -364,7 +366,7 @@ fn do_run(rc: &RunCfg<'_>, run: u64) {
             let pair = orderpair::generate(&mut rng, rc.thorough);
             run_digest = order_pair(p.name, rc.seed, run, &pair.a, &pair.b, pair.tail, layout_seed, &opts);
         }
-        Mode::Plain if matches!(p.name, "C01" | "C03" | "C04") && Rng(mix(rc.seed, run, 12)).chance(1, 16) => {
+        Mode::Plain if matches!(p.name, "C01" | "C03" | "C04" | "C06" | "C08" | "C12") && Rng(mix(rc.seed, run, 12)).chance(1, 16) => {
             // the payload type is a compile-time axis: a payload without drop glue that
             // owns its handles as raw pointers, in small fully recorded adoption graphs
             let mut rng = Rng(hist_seed);
@@ -1010,7 +1012,7 @@ fn replay(a: &Args) -> i32 {
     report::SOFT_MASK.store(if a.has("--all-oracles") { report::S_ALL } else { report::soft_mask_for(pname) }, Relaxed);
     LOG_TRACE.store(a.has("--log-trace"), Relaxed);
     set_log_level(a.has("--log-trace"));
-    SHALLOW.store(a.has("--shallow-clone"), Relaxed);
+    SHALLOW.store(if a.has("--shallow-clone") { 1 } else { a.num("--clone-mode", 0) as u32 }, Relaxed);
     REUSE.store(a.has("--addr-reuse"), Relaxed);
     alloc::set_reuse(a.has("--addr-reuse"));
     let layouts: Vec<u64> = a.get("--layouts").unwrap_or("1").split(',').filter(|s| !s.is_empty()).map(|s| s.parse().unwrap_or_else(|_| die("bad layout"))).collect();
@@ -1066,7 +1068,7 @@ fn scale_cmd(a: &Args) -> i32 {
     let selfsame = a.num("--selfsame-every", 0) as usize;
     let stack_kb = a.num("--stack-kb", 128) as usize;
     let seed = a.num("--seed", 1);
-    scale::DEAD_ACT.store(match a.get("--dead-act") { Some("clone") => 1, Some("drop") => 2, _ => 0 }, Relaxed);
+    scale::DEAD_ACT.store(match a.get("--dead-act") { Some("clone") => 1, Some("drop") => 2, Some("clonefrom") => 3, _ => 0 }, Relaxed);
     scale::DEAD_AT.store(a.num("--dead-at", 0) as usize, Relaxed);
     shared::init();
     alloc::reset(1, false);
